@@ -52,6 +52,11 @@ pub struct AmountCase {
     /// no reservation was made for): it must be refused without traffic and leave the reservation alone
     #[serde(default)]
     pub case_probe: bool,
+    /// a second transaction is opened after the observed one and stays open (max_transactions = 2); the terminal gives it
+    /// the same receipt number (`Some(true)`) or the next one (`Some(false)`). The commit / cancel of the first must still
+    /// go out against its own reservation.
+    #[serde(default)]
+    pub twin: Option<bool>,
 }
 fn swapcase(s: &str) -> String {
     s.chars().map(|c| if c.is_ascii_lowercase() { c.to_ascii_uppercase() } else if c.is_ascii_uppercase() { c.to_ascii_lowercase() } else { c }).collect()
@@ -121,6 +126,15 @@ pub fn check_amounts(c: &AmountCase) -> CheckResult {
         })
         .collect();
     sc.ops = vec![Op::Begin(c.token.clone()), if c.cancel { Op::Cancel(c.token.clone()) } else { Op::Commit(c.token.clone(), c.final_amount) }];
+    let twin = c.twin.filter(|_| !c.retried_reservation && !c.prior_declined && !c.case_probe && c.status_script.is_none());
+    if let Some(same) = twin {
+        sc.cfg.max = 2;
+        if same {
+            let n = sc.sim.receipts.len();
+            sc.sim.receipts[n - 1] = c.receipt;
+        }
+        sc.ops.insert(1, Op::Begin(format!("{}-twin", c.token)));
+    }
     let probe = c.case_probe && swapcase(&c.token) != c.token;
     if probe {
         let other = swapcase(&c.token);
@@ -150,6 +164,15 @@ pub fn check_amounts(c: &AmountCase) -> CheckResult {
         let pr = decoded_requests(&tr.world, tr.calls[1].req_from, tr.calls[1].req_to);
         if !matches!(tr.calls[1].result, Some(Err(_))) || !pr.is_empty() {
             return v("other-token-accepted", format!("reservation open under {:?}; the same call with {:?} (never begun) returned {:?} after sending [{}]", c.token, swapcase(&c.token), tr.calls[1].result, pr.iter().map(|o| format!("{:?} {}", o.0, render(&o.1))).collect::<Vec<_>>().join("; ")));
+        }
+        tr.calls.remove(1);
+    }
+    if twin.is_some() {
+        if !tr.new_returned || tr.calls.len() != 3 {
+            return Ok(());
+        }
+        if !matches!(tr.calls[1].result, Some(Ok(_))) {
+            return v("second-begin-failed", format!("with room for two transactions the second begin returned {:?}", tr.calls[1].result));
         }
         tr.calls.remove(1);
     }
@@ -287,6 +310,7 @@ pub fn case_strategy() -> impl Strategy<Value = AmountCase> {
             let status_script = match script { 0 => None, 100 => Some("N".to_string()), 101 => Some("NN".to_string()), k => Some(crate::props::c07::STATUS_SCRIPTS[k].to_string()) };
             let prior_declined = lrnd % 5 == 0;
             let case_probe = lrnd % 7 < 2;
+            let twin = match lrnd % 11 { 0 | 1 => Some(true), 2 => Some(false), _ => None };
             let prior_card = card.then(|| PriorCard {
                 limit: match lsel % 8 {
                     0 => None,
@@ -320,7 +344,7 @@ pub fn case_strategy() -> impl Strategy<Value = AmountCase> {
                 10 => pre_auth.saturating_add(rnd % 1000),
                 _ => rnd,
             };
-            AmountCase { pre_auth, final_amount, currency, password, token, receipt, status, cancel, intermediates, retried_reservation, status_script, status_amounts, prior_card, prior_txn, prior_declined, case_probe }
+            AmountCase { pre_auth, final_amount, currency, password, token, receipt, status, cancel, intermediates, retried_reservation, status_script, status_amounts, prior_card, prior_txn, prior_declined, case_probe, twin }
         })
 }
 
@@ -355,6 +379,9 @@ pub fn run(tier: Tier) -> i32 {
             }
             if c.case_probe && swapcase(&c.token) != c.token {
                 st.class("probe-with-the-token-in-swapped-case");
+            }
+            if let Some(same) = c.twin.filter(|_| !c.retried_reservation && !c.prior_declined && !c.case_probe && c.status_script.is_none()) {
+                st.class(if same { "second-transaction-open-with-the-same-receipt-number" } else { "second-transaction-open" });
             }
             if c.status_amounts.iter().any(|a| *a < c.pre_auth) {
                 st.class("reservation-status-reports-less-than-requested");
